@@ -114,8 +114,11 @@ def eccentricity_derivative(
     dR_dw_1 = -1. * beta_invr * mass_2 * dU_dw_1
 
     # Correct for zero eccentricity
-    de_dt = (np.abs(denom) <= float_eps) * 0. + \
-            (np.abs(denom) > float_eps) * (e_term1 / denom) * (e_term1 * dR_dM - dR_dw_1)
+    # Use a non-zero stand-in denominator where e = 0 so that `0 * (x / 0)` does not produce NaN / ZeroDivisionError
+    denom_is_zero = (np.abs(denom) <= float_eps) * 1.
+    safe_denom = denom + denom_is_zero
+    de_dt = denom_is_zero * 0. + \
+            (1. - denom_is_zero) * (e_term1 / safe_denom) * (e_term1 * dR_dM - dR_dw_1)
 
     return de_dt
 
@@ -168,7 +171,10 @@ def semia_eccen_derivatives(
     denom = orbital_motion * semi_major_axis * semi_major_axis * eccentricity
 
     # Correct for zero eccentricity
-    de_dt = (np.abs(denom) <= float_eps) * 0. + \
-            (np.abs(denom) > float_eps) * (e_term1 / denom) * (e_term1 * dR_dM - dR_dw_1)
+    # Use a non-zero stand-in denominator where e = 0 so that `0 * (x / 0)` does not produce NaN / ZeroDivisionError
+    denom_is_zero = (np.abs(denom) <= float_eps) * 1.
+    safe_denom = denom + denom_is_zero
+    de_dt = denom_is_zero * 0. + \
+            (1. - denom_is_zero) * (e_term1 / safe_denom) * (e_term1 * dR_dM - dR_dw_1)
 
     return da_dt, de_dt
